@@ -470,7 +470,7 @@ func extractLockSites() {
 
 // extractSections: for each RunX, the ordered list of lock-taking helpers it calls (lexical order).
 func extractSections() {
-	lockers := map[string]bool{"createTask": true, "applySetUpdates": true, "writeLinkEvent": true, "writeResultEvent": true,
+	lockers := map[string]bool{"createTask": true, "createTaskWithUpdates": true, "applySetUpdates": true, "writeLinkEvents": true,
 		"withLock": true, "runPrune": true, "RunPruneApply": true, "RunPrunePlan": true, "createTaskWithDir": true}
 	names := []string{}
 	for n := range funcs {
